@@ -32,6 +32,12 @@ def run(ctx):
     r3(ctx, prog)
     r4(ctx, prog)
     r5(ctx, prog)
+    # R6: exactness of the byte scan the deferral relies on (C15's scan rules, re-evaluated here)
+    from . import C15
+    from .C19 import _Only
+    ctx.rule("R6", "the byte scan used for deferral is exact (C15 R2/R3): flag pairs, immediates skipped, false only at end of input")
+    C15.run(_Only(ctx, "R2", "R6"))
+    C15.run(_Only(ctx, "R3", "R6"))
 
 
 def r2(ctx, prog):
